@@ -15,10 +15,11 @@ correctness; `False`: the program provably never panics).
 
 namespace Crusta
 
-/-- the clauses solver `s` has been given (newest first) -/
+/-- the clauses solver `s` has been given since it was created (newest first) -/
 def dbOf (s : Nat) : List Ev → Cnf
   | [] => []
   | .clause s' c :: t => if s' = s then c :: dbOf s t else dbOf s t
+  | .new s' :: t => if s' = s then [] else dbOf s t
   | _ :: t => dbOf s t
 
 def World.db (w : World) (s : Nat) : Cnf := dbOf s w.trace
@@ -146,8 +147,10 @@ theorem wp_bind' {α β : Type} {C : Prop} (p : Prog α) (f : α → Prog β) (w
 
 /-! ## the clause database of a world -/
 
-@[simp] theorem db_onNew (w : World) (s : Nat) : w.onNew.db s = w.db s := by
+theorem db_onNew (w : World) (s : Nat) : w.onNew.db s = if w.solvers.length = s then [] else w.db s := by
   simp [World.db, World.onNew, dbOf]
+@[simp] theorem db_onNew_self (w : World) : w.onNew.db w.solvers.length = [] := by
+  simp [db_onNew]
 @[simp] theorem db_onReserve (w : World) (s t n : Nat) : (w.onReserve t n).db s = w.db s := by
   simp [World.db, World.onReserve, World.upd, dbOf]
 @[simp] theorem db_onNVars (w : World) (s t : Nat) : (w.onNVars t).db s = w.db s := by
@@ -164,5 +167,138 @@ theorem db_onClause (w : World) (s t : Nat) (c : Clause) :
 
 @[simp] theorem nVarsOf_onNVars (w : World) (s t : Nat) : (w.onNVars s).nVarsOf t = w.nVarsOf t := rfl
 @[simp] theorem nVarsOf_onReply (w : World) (s t : Nat) (r : Reply) : (w.onReply s r).nVarsOf t = w.nVarsOf t := rfl
+
+/-! ## variables of the clause database are known to the solver -/
+
+/-- every variable of a clause given to an existing solver is counted by its `n_vars` -/
+def World.Bounded (w : World) : Prop :=
+  ∀ s, s < w.solvers.length → ∀ c ∈ w.db s, ∀ l ∈ c, l.var ≤ w.nVarsOf s
+
+theorem getD_set_self {α : Type} (l : List α) (i : Nat) (x d : α) (h : i < l.length) : (l.set i x).getD i d = x := by
+  simp [List.getD_eq_getElem?_getD, List.getElem?_set, h]
+
+theorem getD_set_other {α : Type} (l : List α) (i j : Nat) (x d : α) (h : i ≠ j) : (l.set i x).getD j d = l.getD j d := by
+  simp [List.getD_eq_getElem?_getD, List.getElem?_set, h]
+
+theorem nVarsOf_upd (w : World) (s t : Nat) (f : SolverSt → SolverSt) :
+    (w.upd s f).nVarsOf t = if t = s ∧ s < w.solvers.length then (f (w.solvers.getD s {})).nVars else w.nVarsOf t := by
+  unfold World.upd World.nVarsOf
+  by_cases h : t = s ∧ s < w.solvers.length
+  · obtain ⟨rfl, hlt⟩ := h
+    rw [if_pos ⟨rfl, hlt⟩, getD_set_self _ _ _ _ hlt]
+  · rw [if_neg h]
+    by_cases hts : t = s
+    · subst hts
+      have : ¬ t < w.solvers.length := fun hh => h ⟨rfl, hh⟩
+      simp only
+      rw [List.set_eq_of_length_le (by omega)]
+    · simp only
+      rw [getD_set_other _ _ _ _ _ (fun e => hts e.symm)]
+
+theorem litsMax_ge {c : List Lit} {l : Lit} (h : l ∈ c) : l.var ≤ litsMax c := by
+  unfold litsMax
+  have : ∀ (c : List Lit) (m : Nat), (m ≤ c.foldl (fun m x => max m x.var) m) ∧
+      (∀ l ∈ c, l.var ≤ c.foldl (fun m x => max m x.var) m) := by
+    intro c
+    induction c with
+    | nil => intro m; simp
+    | cons a t ih =>
+      intro m
+      simp only [List.foldl_cons]
+      obtain ⟨h1, h2⟩ := ih (max m a.var)
+      refine ⟨by omega, ?_⟩
+      intro l hl
+      rcases List.mem_cons.1 hl with rfl | hl
+      · omega
+      · exact h2 l hl
+  exact (this c 0).2 l h
+
+theorem Bounded_onNew {w : World} (h : w.Bounded) : w.onNew.Bounded := by
+  intro s hs c hc l hl
+  rw [db_onNew] at hc
+  by_cases he : w.solvers.length = s
+  · rw [if_pos he] at hc; cases hc
+  · rw [if_neg he] at hc
+    have hs' : s < w.solvers.length := by simp [World.onNew] at hs; omega
+    have := h s hs' c hc l hl
+    have e : w.onNew.nVarsOf s = w.nVarsOf s := by
+      simp [World.onNew, World.nVarsOf, List.getD_eq_getElem?_getD, List.getElem?_append_left hs']
+    rw [e]; exact this
+
+theorem Bounded_onReserve {w : World} (h : w.Bounded) (s n : Nat) : (w.onReserve s n).Bounded := by
+  intro t ht c hc l hl
+  have ht' : t < w.solvers.length := by simpa [World.onReserve, World.upd] using ht
+  rw [db_onReserve] at hc
+  have := h t ht' c hc l hl
+  have e : (w.onReserve s n).nVarsOf t = (w.upd s (fun st => { st with reserved := max st.reserved n })).nVarsOf t := rfl
+  rw [e, nVarsOf_upd]
+  split
+  · rename_i hh
+    obtain ⟨rfl, _⟩ := hh
+    simp only [SolverSt.nVars, World.nVarsOf] at this ⊢
+    omega
+  · exact this
+
+theorem Bounded_onClause {w : World} (h : w.Bounded) (s : Nat) (c0 : Clause) : (w.onClause s c0).Bounded := by
+  intro t ht c hc l hl
+  have ht' : t < w.solvers.length := by simpa [World.onClause, World.upd] using ht
+  have e : (w.onClause s c0).nVarsOf t = (w.upd s (fun st => { st with maxVar := max st.maxVar (litsMax c0) })).nVarsOf t := rfl
+  rw [e, nVarsOf_upd]
+  rw [db_onClause] at hc
+  by_cases hst : s = t
+  · subst hst
+    rw [if_pos ⟨rfl, ht'⟩]
+    rw [if_pos rfl] at hc
+    simp only [SolverSt.nVars]
+    rcases List.mem_cons.1 hc with rfl | hc
+    · have := litsMax_ge hl; omega
+    · have := h s ht' c hc l hl
+      simp only [World.nVarsOf, SolverSt.nVars] at this
+      omega
+  · rw [if_neg (fun hh => hst hh.1.symm)]
+    rw [if_neg hst] at hc
+    exact h t ht' c hc l hl
+
+theorem Bounded_onNVars {w : World} (h : w.Bounded) (s : Nat) : (w.onNVars s).Bounded := by
+  intro t ht c hc l hl
+  rw [db_onNVars] at hc
+  exact h t ht c hc l hl
+
+theorem Bounded_onSolve {w : World} (h : w.Bounded) (s : Nat) (a : List Lit) : (w.onSolve s a).Bounded := by
+  intro t ht c hc l hl
+  have ht' : t < w.solvers.length := by simpa [World.onSolve, World.upd] using ht
+  rw [db_onSolve] at hc
+  have := h t ht' c hc l hl
+  have e : (w.onSolve s a).nVarsOf t = (w.upd s (fun st => { st with maxVar := max st.maxVar (litsMax a) })).nVarsOf t := rfl
+  rw [e, nVarsOf_upd]
+  split
+  · rename_i hh
+    obtain ⟨rfl, _⟩ := hh
+    simp only [SolverSt.nVars, World.nVarsOf] at this ⊢
+    omega
+  · exact this
+
+theorem Bounded_onReply {w : World} (h : w.Bounded) (s : Nat) (r : Reply) : (w.onReply s r).Bounded := by
+  intro t ht c hc l hl
+  rw [db_onReply] at hc
+  exact h t ht c hc l hl
+
+/-- boundedness is an invariant of every program: it can be added to any postcondition -/
+theorem wp_bounded {α : Type} {C : Prop} (p : Prog α) : ∀ (w : World) (Q : α → World → Prop),
+    w.Bounded → wp C p w Q → wp C p w (fun a w' => w'.Bounded ∧ Q a w') := by
+  induction p with
+  | pure a0 => intro w Q hb h; exact ⟨hb, h⟩
+  | crash m => intro w Q _ h; exact h
+  | newSolver k ih => intro w Q hb h; exact ih _ _ Q (Bounded_onNew hb) h
+  | reserve s n k ih => intro w Q hb h; exact ih _ Q (Bounded_onReserve hb s n) h
+  | clause s c k ih => intro w Q hb h; exact ih _ Q (Bounded_onClause hb s c) h
+  | nVars s k ih => intro w Q hb h; exact ih _ _ Q (Bounded_onNVars hb s) h
+  | solve s as k ih =>
+    intro w Q hb h
+    exact ⟨fun m hm => ih _ _ Q (Bounded_onReply (Bounded_onSolve hb s as) s _) (h.1 m hm),
+           fun hu => ih _ _ Q (Bounded_onReply (Bounded_onSolve hb s as) s _) (h.2 hu)⟩
+
+theorem Bounded_empty : ({} : World).Bounded := by
+  intro s hs; simp at hs
 
 end Crusta
